@@ -158,6 +158,10 @@ func c05Gen(t *rapid.T) SeqCase {
 			steps = append(steps, afterGone(t, []string{"s1", "s2", "s3", "s4", "dst"}, c05Step)...)
 			continue
 		}
+		if rapid.IntRange(0, 19).Draw(t, "retype") == 0 {
+			steps = append(steps, afterRetype(t, []string{"s1", "s2", "s3", "s4", "dst"}, c05Step)...)
+			continue
+		}
 		steps = append(steps, c05Step(t))
 	}
 	return SeqCase{Steps: steps}
